@@ -219,28 +219,45 @@ def check_graph(m, g, text_control=False):
 
 
 def classify_unbounded(g, graph, on_cycle):
-    """Signature for unbounded recursion: does the cyclic component have a rule
-    that lies on every one of its cycles?  (If not, no single leader can guard it.)"""
-    comp = on_cycle
-    common = None
-    for r in comp:
-        # remove r: is the rest acyclic?
-        sub = {x: {y for y in graph[x] if y != r and y in comp} for x in comp if x != r}
-        def cyc(sub):
-            for s in sub:
-                seen, todo = set(), list(sub[s])
-                while todo:
-                    x = todo.pop()
-                    if x == s:
-                        return True
-                    if x not in seen:
-                        seen.add(x)
-                        todo += sub.get(x, ())
-            return False
-        if not cyc(sub):
-            common = r
-            break
-    return 'unbounded-recursion/' + ('component-with-common-rule' if common else 'cycles-share-no-rule')
+    """Signature for unbounded recursion: is there a cyclic component without a rule that lies on every one of its cycles?
+    (If so, no single leader can guard it: the recorded finding.  Components are taken one by one: two components that each
+    have such a rule are guarded, whatever they call in each other.)"""
+    def reach(x, allowed):
+        seen, todo = set(), [y for y in graph[x] if y in allowed]
+        while todo:
+            y = todo.pop()
+            if y not in seen:
+                seen.add(y)
+                todo += [z for z in graph[y] if z in allowed]
+        return seen
+
+    def cyclic(sub):
+        for s0 in sub:
+            seen, todo = set(), list(sub[s0])
+            while todo:
+                x = todo.pop()
+                if x == s0:
+                    return True
+                if x not in seen:
+                    seen.add(x)
+                    todo += sub.get(x, ())
+        return False
+
+    rest = set(on_cycle)
+    leaderless = False
+    while rest:
+        r0 = next(iter(sorted(rest)))
+        comp = {r0} | {y for y in reach(r0, on_cycle) if r0 in reach(y, on_cycle)}
+        rest -= comp
+        common = None
+        for r in sorted(comp):
+            sub = {x: {y for y in graph[x] if y != r and y in comp} for x in comp if x != r}
+            if not cyclic(sub):
+                common = r
+                break
+        if common is None:
+            leaderless = True
+    return 'unbounded-recursion/' + ('cycles-share-no-rule' if leaderless else 'component-with-common-rule')
 
 
 def shard(m, items, text_control=False):
@@ -273,6 +290,14 @@ def families(tier):
     bw = bodies(('a', 'b'), ITEMS_WIDE)
     bn = bodies(('a', 'b'), ('a', 'b', 't', '&t', '!a', '{a}+')) if tier == 'quick' else bw
     fams.append(('2 rules, wide items (lookaheads, void, group, closures of calls, named)', [{'a': x, 'b': y} for x in bw for y in bn]))
+    # family 5: every left-call graph: each rule is `x 't' | y 't' | ... | 't'` for a subset of the rules (which rule leads a
+    # component that has several cycles depends on the whole graph, also on calls that leave the component)
+    names = ('a', 'b', 'c') if tier == 'quick' else ('a', 'b', 'c', 'd')
+    subsets = [[n for n, bit in zip(names, bits) if bit] for bits in itertools.product((0, 1), repeat=len(names))]
+    graphs = []
+    for combo in itertools.product(subsets, repeat=len(names)):
+        graphs.append({r: [[c, 't'] for c in callees] + [['t']] for r, callees in zip(names, combo)})
+    fams.append((f'{len(names)} rules, every left-call graph', graphs))
     return fams
 
 
